@@ -21,6 +21,7 @@ try:
             rel = F.relpath(fd.get("file", ""))
             if not (rel.startswith("orc/") or rel.startswith("tools/")) or not fd.get("body"):
                 continue
+            F.separate_shadows(fd)
             params, locs = F.local_decls(fd)
             tab["%s::%s" % (rel, fd["name"])] = {"params": params, "locals": [[t, n] for t, n in locs]}
     json.dump(tab, open(os.path.join(VERIF, "tables", "localnames.json"), "w"), indent=0, sort_keys=True)
